@@ -193,7 +193,7 @@ def run_all(run):
         ro = r - 1
         o1 = rng.randrange(0, ro + 1) if rng.random() < 0.7 else rng.randrange(-(ro + 1), 0)
         o2 = rng.randrange(0, ro + 1)
-        form = rng.choice(["td_tensor", "td_td", "tensor_only", "dict", "const_td", "const_mixed"])
+        form = rng.choice(["td_tensor", "td_td", "tensor_only", "dict", "const_td", "const_mixed", "same_td_twice", "same_td_twice", "input_twice", "same_td_thrice"])
         const = G.make_td(tuple(b[:i % r] + b[i % r + 1:])).apply(lambda x: x + 5)      # an un-batched tensordict captured by the function
         if form == "td_tensor":
             f, od = (lambda t: (t.apply(lambda x: x * 2), t["b"] + 1)), (o1, o2)
@@ -203,6 +203,13 @@ def run_all(run):
             f, od = (lambda t: t["a"] * 2), o2
         elif form == "const_td":
             f, od = (lambda t, const=const: const), o2
+        elif form == "same_td_twice":          # ONE object returned twice, each position with its own out_dim
+            f, od = (lambda t: (lambda out: (out, out))(t.apply(lambda x: x * 2))), (o1, o2)
+        elif form == "input_twice":
+            f, od = (lambda t: (t, t)), (o1, o2)
+        elif form == "same_td_thrice":
+            o3 = rng.randrange(-(ro + 1), ro + 1)
+            f, od = (lambda t: (lambda out: (out, out["b"], out))(t.apply(lambda x: x + 3))), (o1, o2, o3)
         elif form == "const_mixed":
             f, od = (lambda t, const=const: (t.apply(lambda x, y: x + y, const), const)), (o1, o2)
         else:
